@@ -535,7 +535,7 @@ func (c08Fix32Codec) WireType() plenccore.WireType { return plenccore.WT32 }
 func (c08Fix32Codec) Descriptor() plenccodec.Descriptor {
 	return plenccodec.Descriptor{Type: plenccodec.FieldTypeFloat32}
 }
-func (c08Fix32Codec) New() unsafe.Pointer { return unsafe.Pointer(new(c08Fix32)) }
+func (c08Fix32Codec) New() unsafe.Pointer                     { return unsafe.Pointer(new(c08Fix32)) }
 func (c08Fix32Codec) Size(ptr unsafe.Pointer, tag []byte) int { return len(tag) + 4 }
 func (c08Fix32Codec) Append(data []byte, ptr unsafe.Pointer, tag []byte) []byte {
 	v := (*c08Fix32)(ptr).V // (a nil ptr is the library handing the codec something it must not)
